@@ -502,12 +502,12 @@ Theorem openssh_public_line_roundtrip known alg a0 alg' blob comment :
   alg = a0 :: alg' -> a0 <> 45 -> a0 <> 48 -> no_ws alg = true -> known alg = true ->
   Forall is_byte blob -> blob <> [] ->
   match comment with Some c => comment_survives_line c | None => True end ->
-  match_next known (export_openssh_public alg blob comment) PUBLIC_KEY true = FOpenSSH alg comment blob [].
+  match_next known (export_openssh_public_old alg blob comment) PUBLIC_KEY true = FOpenSSH alg comment blob [].
 Proof.
   intros Halg H45 H48 Hws Hknown Hb Hne Hcm.
   set (tail := match comment with Some c => 32 :: c | None => [] end).
-  assert (Htext : export_openssh_public alg blob comment = (alg ++ [32] ++ b2a blob ++ tail) ++ [NL]).
-  { unfold export_openssh_public, tail. rewrite <- !app_assoc. reflexivity. }
+  assert (Htext : export_openssh_public_old alg blob comment = (alg ++ [32] ++ b2a blob ++ tail) ++ [NL]).
+  { unfold export_openssh_public_old, tail. rewrite <- !app_assoc. reflexivity. }
   pose proof (b2a_no_ws blob Hb) as Hbws. destruct (b2a_nonempty blob Hne) as (b0 & b' & Hb2a).
   assert (Hb0 : is_ws b0 = false).
   { unfold no_ws in Hbws. rewrite Hb2a in Hbws. cbn in Hbws. apply andb_true_iff in Hbws as [H _].
@@ -565,20 +565,58 @@ Proof.
   exact Hscan.
 Qed.
 
-(* ... and where it fails: a newline or a leading blank in the comment changes what is read back *)
+(* the export of record: succeeds exactly for comments without LF/CR, and then writes the text above *)
+Lemma has_byte_false c s : ~ In c s -> has_byte c s = false.
+Proof.
+  unfold has_byte. induction s as [|x s IH]; intros H; [reflexivity|]. cbn [existsb].
+  destruct (c =? x) eqn:E; [apply Z.eqb_eq in E; subst; exfalso; apply H; left; reflexivity|].
+  apply IH. intros Hin. apply H. right. exact Hin.
+Qed.
+
+Lemma has_byte_true c s : In c s -> has_byte c s = true.
+Proof.
+  unfold has_byte. intros H. apply existsb_exists. exists c. split; [exact H|apply Z.eqb_refl].
+Qed.
+
+Theorem openssh_public_export_import known alg a0 alg' blob comment :
+  alg = a0 :: alg' -> a0 <> 45 -> a0 <> 48 -> no_ws alg = true -> known alg = true ->
+  Forall is_byte blob -> blob <> [] ->
+  match comment with Some c => comment_survives_line c /\ ~ In 13 c | None => True end ->
+  exists text, export_openssh_public alg blob comment = Some text /\
+               match_next known text PUBLIC_KEY true = FOpenSSH alg comment blob [].
+Proof.
+  intros Halg H45 H48 Hws Hknown Hb Hne Hcm.
+  exists (export_openssh_public_old alg blob comment). split.
+  - unfold export_openssh_public, comment_exportable. destruct comment as [c|]; [|reflexivity].
+    destruct Hcm as [[Hnl _] Hcr]. rewrite (has_byte_false 10 c Hnl), (has_byte_false 13 c Hcr). reflexivity.
+  - apply (openssh_public_line_roundtrip known alg a0 alg'); try assumption.
+    destruct comment as [c|]; [tauto|exact I].
+Qed.
+
+Theorem newline_comment_export_refused alg blob c :
+  In 10 c \/ In 13 c ->
+  export_openssh_public alg blob (Some c) = None /\ export_rfc4716 blob (Some c) = None.
+Proof.
+  intros H. unfold export_openssh_public, export_rfc4716, comment_exportable.
+  destruct H as [H|H]; [rewrite (has_byte_true 10 c H)|rewrite (has_byte_true 13 c H), orb_true_r]; split; reflexivity.
+Qed.
+
+(* where the unchecked export of the unrepaired code failed, and what still fails *)
 Lemma openssh_public_comment_newline_not_preserved :
-  match_next (fun _ => true) (export_openssh_public [115; 115; 104] [1; 2; 3] (Some [97; 10; 98])) PUBLIC_KEY true =
+  match_next (fun _ => true) (export_openssh_public_old [115; 115; 104] [1; 2; 3] (Some [97; 10; 98])) PUBLIC_KEY true =
   FOpenSSH [115; 115; 104] (Some [97]) [1; 2; 3] [98; 10].
 Proof. vm_compute. reflexivity. Qed.
 
-Lemma openssh_public_comment_blank_not_preserved :
-  match_next (fun _ => true) (export_openssh_public [115; 115; 104] [1; 2; 3] (Some [32; 97])) PUBLIC_KEY true =
-  FOpenSSH [115; 115; 104] (Some [97]) [1; 2; 3] [].
+Lemma rfc4716_comment_newline_not_importable :
+  match_next (fun _ => true) (export_rfc4716_old [1; 2; 3] (Some [97; 10; 98])) PUBLIC_KEY true = FErr ImportErr.
 Proof. vm_compute. reflexivity. Qed.
 
-Lemma rfc4716_comment_newline_not_importable :
-  match_next (fun _ => true) (export_rfc4716 [1; 2; 3] (Some [97; 10; 98])) PUBLIC_KEY true = FErr ImportErr.
-Proof. vm_compute. reflexivity. Qed.
+Lemma openssh_public_comment_blank_not_preserved :
+  export_openssh_public [115; 115; 104] [1; 2; 3] (Some [32; 97]) =
+    Some (export_openssh_public_old [115; 115; 104] [1; 2; 3] (Some [32; 97])) /\
+  match_next (fun _ => true) (export_openssh_public_old [115; 115; 104] [1; 2; 3] (Some [32; 97])) PUBLIC_KEY true =
+  FOpenSSH [115; 115; 104] (Some [97]) [1; 2; 3] [].
+Proof. vm_compute. split; reflexivity. Qed.
 
 (* ------------------------------------------------------------------------------------------- *)
 (* PEM armour: wrap_base64 followed by _match_next / match_base64 / _parse_pem *)
